@@ -176,8 +176,8 @@ def compositions(n):
 def directed(tier):
     out = []
     seed = 1
-    # all compositions of the first 6 bytes x {rest whole}
-    for comp in compositions(6):
+    # all compositions of the first 8 (quick) / 11 (thorough) bytes x {rest whole}
+    for comp in compositions(11 if tier == "thorough" else 8):
         for body in (0, 5, 300):
             out.append({"engine": "sockframe", "seed": seed, "mode": "recv", "body_len": body,
                         "chunks": comp + [100000], "fault": None})
